@@ -5,7 +5,7 @@ CONSTANTS
   MaxMsgs = 2
   LenMode = "runes"
   Variants <- VariantsDef
-  ChunkMax = 3
+  ChunkMax = 2
   AllCuts = TRUE
 INIT Init
 NEXT Next
